@@ -15,9 +15,10 @@ import LopdfModel.Lemmas.CryptStrip
       processed streams (Stream::set_content), so contents and strings are restored exactly;
       walker_rt_exact under the guard "every stream's Length is its content length".
     * aes_ct_ne_pt: AES ciphertext never equals the plaintext (length).
-  The full statement is FALSE of the code in one remaining place (counter-witness in this file /
-  the harness): non-PDFDoc passwords for R≤4.  Repaired in /repo and now positive theorems: the owner
-  password with R2–R4 (doc_rt_owner_r234) and R5/R6 passwords longer than 127 bytes (doc_rt_over127).
+  All three places where the full statement was false of the code are repaired in /repo and are now
+  positive theorems: the owner password with R2–R4 (doc_rt_owner_r234), R5/R6 passwords longer than
+  127 bytes (doc_rt_over127), and non-PDFDoc passwords for R≤4, which are rejected instead of being
+  shortened (sanitize_rejects_non_pdfdoc, sanitize_decodes, sanitize_injective).
 -/
 set_option linter.unusedSectionVars false
 namespace Lopdf.Crypt
@@ -715,10 +716,60 @@ theorem auth_r6_truncates (P : Prims) (a : Alg) (pw : Bytes) :
   rw [trunc127_take]
   exact ⟨rfl, rfl, rfl⟩
 
-/-- F-C05-b (R ≤ 4): characters outside PDFDocEncoding are dropped — "пароль" and "密码" both
-sanitise to the empty password. -/
-theorem sanitize_drops_non_pdfdoc :
-    sanitizeR4 [0x43f, 0x430, 0x440, 0x43e, 0x43b, 0x44c] = [] ∧ sanitizeR4 [0x5bc6, 0x7801] = [] ∧
-    sanitizeR4 [0x70, 0x43f, 0x77] = [0x70, 0x77] := by decide +kernel
+/-! ### (F-C05-b repaired) R ≤ 4 password preparation never changes the password silently -/
+
+/-- "пароль" and "密码" are rejected (they used to collapse to the empty password), and one
+unrepresentable character rejects the whole password. -/
+theorem sanitize_rejects_non_pdfdoc :
+    sanitizeR4 [0x43f, 0x430, 0x440, 0x43e, 0x43b, 0x44c] = none ∧ sanitizeR4 [0x5bc6, 0x7801] = none ∧
+    sanitizeR4 [0x70, 0x43f, 0x77] = none ∧ sanitizeR4 [0x70, 0x77, 0xe9] = some [0x70, 0x77, 0xe9] := by decide +kernel
+
+/-- no character is ever dropped: an accepted password keeps its length … -/
+theorem sanitize_length (us : List Nat) (bs : Bytes) (h : sanitizeR4 us = some bs) : bs.length = us.length := by
+  induction us generalizing bs with
+  | nil => simp [sanitizeR4] at h; subst h; rfl
+  | cons u rest ih =>
+    simp only [sanitizeR4] at h
+    split at h
+    · rename_i i bs' _ hr
+      injection h with h; subst h
+      simp [ih bs' hr]
+    · cases h
+
+theorem pdfdoc_length : PDF_DOC_ENCODING.length = 256 := by decide +kernel
+
+/-- … and every byte of it is a PDFDocEncoding code of the corresponding character: the prepared
+password decodes back to the password given, for every accepted password. -/
+theorem sanitize_decodes (us : List Nat) (bs : Bytes) (h : sanitizeR4 us = some bs) :
+    bs.map (fun (b : UInt8) => PDF_DOC_ENCODING[b.toNat]?) = us.map (fun u => some (some u)) := by
+  induction us generalizing bs with
+  | nil => simp [sanitizeR4] at h; subst h; rfl
+  | cons u rest ih =>
+    simp only [sanitizeR4] at h
+    split at h
+    · rename_i i bs' hi hr
+      injection h with h; subst h
+      have hlt : i < PDF_DOC_ENCODING.length := (List.findIdx?_eq_some_iff_getElem.mp hi).1
+      have hget := (List.findIdx?_eq_some_iff_getElem.mp hi).2.1
+      have h256 : i < 256 := by rw [← pdfdoc_length]; exact hlt
+      have hn : i.toUInt8.toNat = i := by simp [Nat.toUInt8, UInt8.toNat_ofNat']; omega
+      simp only [List.map_cons, hn, ih bs' hr]
+      congr 1
+      rw [List.getElem?_eq_getElem hlt]
+      simpa using hget
+    · cases h
+
+/-- hence two different accepted passwords never collapse into one -/
+theorem sanitize_injective (us vs : List Nat) (bs : Bytes) (h1 : sanitizeR4 us = some bs) (h2 : sanitizeR4 vs = some bs) :
+    us = vs := by
+  have e := (sanitize_decodes us bs h1).symm.trans (sanitize_decodes vs bs h2)
+  have inj : ∀ (a b : List Nat), a.map (fun u => some (some u)) = b.map (fun u => some (some u)) → a = b := by
+    intro a
+    induction a with
+    | nil => intro b hb; cases b <;> simp_all
+    | cons x xs ih => intro b hb; cases b with
+      | nil => simp at hb
+      | cons y ys => simp at hb; rw [hb.1, ih ys hb.2]
+  exact inj us vs e
 
 end Lopdf.Crypt
